@@ -73,6 +73,7 @@ def run(prog, res):
   _v1(prog, res)
   _v1_siblings(prog, res)
   _v1_premade(prog, res)
+  _v1_trust_roles(prog, res)
   _v2(prog, res)
   _v6(prog, res)
   _v7(prog, res)
@@ -82,6 +83,7 @@ def run(prog, res):
   res.floor('V1', 60)
   res.floor('V1s', 3)
   res.floor('V1p', 8)
+  res.floor('V1t', 1)
   res.floor('V2', 25)
   res.floor('V6', 8)
   res.floor('V7', 6)
@@ -560,3 +562,45 @@ def _v5(prog, res):
   res.extra['api_calls_checked'] = total
   res.extra['api_calls_without_signature'] = unres
   res.floor('V5', 60)
+
+
+# ---------------------------------------------------------------------------
+def _v1_trust_roles(prog, res):
+  """V1t: "a feature used as both main and conditional" must be rejected for
+  every listing order: the rejecting test reads an accumulator of *all* main
+  dims and an accumulator of *all* conditional dims (or tests both
+  directions inside the loop)."""
+  v = prog.function('lattice_lib.verify_hyperparameters')
+  acc = {}   # accumulator name -> loop variable it collects
+  for c in ast.walk(v.node):
+    if isinstance(c, ast.Call) and isinstance(c.func, ast.Attribute) and \
+        c.func.attr == 'add' and c.args and dotted(c.args[0]) in (
+            'main_dim', 'cond_dim'):
+      acc.setdefault(dotted(c.func.value), set()).add(dotted(c.args[0]))
+  main_acc = {a for a, vs in acc.items() if vs == {'main_dim'}}
+  cond_acc = {a for a, vs in acc.items() if vs == {'cond_dim'}}
+  from ..rules.wiring import FnCtx
+  ctx = FnCtx.of(v)
+  good = False
+  dirs = set()
+  for idx, r in validate.raise_sites(v):
+    gs = structural_guards(v.node, r) or []
+    reads = set()
+    for t, pol in gs[-1:]:
+      reads |= ctx.expand_reads(t, keep_locals=True)
+    if reads & main_acc and reads & cond_acc:
+      good = True
+    if 'main_dim' in reads and reads & cond_acc:
+      dirs.add('main-in-cond')
+    if 'cond_dim' in reads and reads & main_acc:
+      dirs.add('cond-in-main')
+  good = good or dirs == {'main-in-cond', 'cond-in-main'}
+  res.check(good, 'V1t', 'lattice_lib.verify_hyperparameters|trust-both-roles',
+            v.loc(),
+            'the both-roles rejection compares all main dims with all '
+            'conditional dims (order independent)',
+            'the rejection of a feature used as both main and conditional '
+            'feature of trust constraints does not compare the set of all '
+            'main dims with the set of all conditional dims (found one-sided '
+            'tests %s): whether the configuration is rejected depends on the '
+            'listing order' % sorted(dirs))
